@@ -60,6 +60,10 @@ def run(R, job):
         at, _ = core.consolidate_attrs(title=a); check("consolidate_attrs (plain) then Tag", core.Tag("div", **at), [("title", esca(a))])
         check("add_class plain onto HTML", core.Tag("div", class_=HTML(h)).add_class(a), [("class", h + " " + esca(a))])
         check("add_class HTML onto plain (prepend)", core.Tag("div", class_=a).add_class(HTML(h), prepend=True), [("class", h + " " + esca(a))])
+        class MyStr(str):
+            pass
+        check("str subclass value", core.Tag("div", title=MyStr(a)), [("title", esca(a))])
+        t = core.Tag("div"); t.attrs["title"] = MyStr(a); check("str subclass via setitem", t, [("title", esca(a))])
         t = core.Tag("div"); t.attrs.update(title=a); check("attrs.update", t, [("title", esca(a))])
         t = core.Tag("div"); t.attrs["title"] = a; check("setitem", t, [("title", esca(a))])
         tok = a.replace(" ", "") or "k"
